@@ -174,7 +174,7 @@ def available_props(ctx: Ctx):
 def phases(ctx: Ctx):
     repo = ctx.repo
     from .c09 import step_phases
-    step_phases(ctx)
+    step_phases(ctx, generators_must_see_driver_updates=True)
     outer = repo.func(SSO, "perform_driver_state_updates")
     inner = repo.func(SSO, "perform_driver_state_updates._step_drivers")
     s0 = outer.params[0]
